@@ -314,3 +314,160 @@ class SeqView(ADT):
         run = sym.cur()
         v = SeqView(self.arr, sym.SInt(run.fresh(f"h_{name}_off", "int")), sym.SInt(run.fresh(f"h_{name}_len", "int")), self.log, self.sorted_strict, self.name)
         return v
+
+
+def _us_of(x):
+    """microseconds of a real datetime.timedelta or a SymTimedeltaUs"""
+    import datetime
+    if isinstance(x, SymTimedeltaUs):
+        return x.us
+    if isinstance(x, datetime.timedelta):
+        return (x.days * 86400 + x.seconds) * 1000000 + x.microseconds
+    return None
+
+
+class SymTimedeltaUs(ADT):
+    """S5: datetime.timedelta as an exact integer number of microseconds; true division by an int rounds to the
+    nearest microsecond, ties to even (CPython's timedelta.__truediv__)."""
+
+    def __init__(self, us):
+        self.us = us
+
+    def __pv_isinstance__(self, cls):
+        import datetime
+        return cls is datetime.timedelta or (isinstance(cls, type) and issubclass(cls, datetime.timedelta))
+
+    def total_seconds(self):
+        return sym.SReal(sym.real_expr(self.us)) / 1000000 if isinstance(self.us, sym.SNum) else self.us / 1e6
+
+    def __add__(self, o):
+        u = _us_of(o)
+        if u is not None:
+            return SymTimedeltaUs(self.us + u)
+        if isinstance(o, SymDateUs):
+            return o + self
+        return NotImplemented
+
+    __radd__ = __add__
+
+    def __sub__(self, o):
+        u = _us_of(o)
+        return SymTimedeltaUs(self.us - u) if u is not None else NotImplemented
+
+    def __rsub__(self, o):
+        u = _us_of(o)
+        return SymTimedeltaUs(u - self.us) if u is not None else NotImplemented
+
+    def __neg__(self):
+        return SymTimedeltaUs(-self.us)
+
+    def __abs__(self):
+        return SymTimedeltaUs(abs(self.us))
+
+    def __mul__(self, k):
+        if isinstance(k, (int, sym.SInt)):
+            return SymTimedeltaUs(self.us * k)
+        raise sym.EngineLimit("timedelta * non-integer in the microsecond model")
+
+    __rmul__ = __mul__
+
+    def __truediv__(self, k):
+        import z3
+        if isinstance(k, int) and k == 2:
+            run = sym.cur()
+            q = run.fresh("half", "int")
+            u = sym.lift(self.us)[0]
+            # q = round_half_even(u / 2):  u = 2q (even u);  odd u = 2m+1 -> q = m if m even else m+1
+            m = run.fresh("m", "int")
+            run.add_def(q, z3.Or(z3.And(u == 2 * q), z3.And(u == 2 * m + 1, z3.If(m % 2 == 0, q == m, q == m + 1))))
+            run.add_def(m, z3.Or(u == 2 * q, u == 2 * m + 1))
+            return SymTimedeltaUs(sym.SInt(q))
+        raise sym.EngineLimit("timedelta division other than /2 in the microsecond model")
+
+    def _cmp(self, o, op):
+        u = _us_of(o)
+        if u is None:
+            return NotImplemented
+        return sym.cmp(self.us, u, op)
+
+    def __lt__(self, o):
+        return self._cmp(o, "<")
+
+    def __le__(self, o):
+        return self._cmp(o, "<=")
+
+    def __gt__(self, o):
+        return self._cmp(o, ">")
+
+    def __ge__(self, o):
+        return self._cmp(o, ">=")
+
+    def __eq__(self, o):
+        u = _us_of(o)
+        return False if u is None else sym.cmp(self.us, u, "==")
+
+    __hash__ = object.__hash__
+
+    def __pv_havoc__(self, name):
+        return SymTimedeltaUs(sym.SInt(sym.cur().fresh(f"h_{name}", "int")))
+
+
+class SymDateUs(ADT):
+    """Date ADT on an integer-microsecond TAI instant (Date arithmetic goes through datetime: microsecond exact)."""
+
+    def __init__(self, us, scale="UTC"):
+        self.us, self.scale = us, scale
+
+    def __pv_isinstance__(self, cls):
+        return getattr(cls, "__name__", "") == "Date"
+
+    def __sub__(self, o):
+        if isinstance(o, SymDateUs):
+            return SymTimedeltaUs(self.us - o.us)
+        u = _us_of(o)
+        return SymDateUs(self.us - u, self.scale) if u is not None else NotImplemented
+
+    def __add__(self, o):
+        u = _us_of(o)
+        return SymDateUs(self.us + u, self.scale) if u is not None else NotImplemented
+
+    __radd__ = __add__
+
+    def _cmp(self, o, op):
+        return sym.cmp(self.us, o.us, op)
+
+    def __lt__(self, o):
+        return self._cmp(o, "<")
+
+    def __le__(self, o):
+        return self._cmp(o, "<=")
+
+    def __gt__(self, o):
+        return self._cmp(o, ">")
+
+    def __ge__(self, o):
+        return self._cmp(o, ">=")
+
+    def __eq__(self, o):
+        return isinstance(o, SymDateUs) and self._cmp(o, "==")
+
+    def __ne__(self, o):
+        return not isinstance(o, SymDateUs) or self._cmp(o, "!=")
+
+    __hash__ = object.__hash__
+
+    def __pv_havoc__(self, name):
+        return SymDateUs(sym.SInt(sym.cur().fresh(f"h_{name}", "int")), self.scale)
+
+
+class TimedState(ADT):
+    """a propagated state of which only the date (and an event slot) matters to the code under contract"""
+
+    def __init__(self, date, tag=None):
+        self.date, self.event, self.tag = date, None, tag
+
+    def __pv_isinstance__(self, cls):
+        return getattr(cls, "__name__", "") in ("StateVector", "Orbit")
+
+    def __pv_havoc__(self, name):
+        return TimedState(self.date.__pv_havoc__(name + "_date"), self.tag)
